@@ -33,7 +33,11 @@ type Src struct {
 	// reads never cross FailAt.
 	FailAt  int
 	FailErr error
-	Reads   int
+	// Once: the failure at FailAt happens one time only (a read deadline that expired and was extended); the
+	// failing call hands out nothing, later calls go on delivering
+	Once  bool
+	fired bool
+	Reads int
 	// Idle > 0: every Idle-th call returns (0, nil) without data - allowed by io.Reader ("callers should
 	// treat a return of 0 and nil as indicating that nothing happened")
 	Idle int
@@ -42,7 +46,7 @@ type Src struct {
 func NewSrc(data []byte) *Src { return &Src{Data: data, FailAt: -1} }
 
 func (s *Src) limit() int {
-	if s.FailAt >= 0 && s.FailAt < len(s.Data) {
+	if s.FailAt >= 0 && s.FailAt < len(s.Data) && !(s.Once && s.fired) {
 		return s.FailAt
 	}
 	return len(s.Data)
@@ -52,7 +56,8 @@ func (s *Src) Read(p []byte) (int, error) {
 	s.Reads++
 	lim := s.limit()
 	if s.Pos >= lim {
-		if s.FailAt >= 0 && s.Pos >= s.FailAt && s.FailErr != nil {
+		if s.FailAt >= 0 && s.Pos >= s.FailAt && s.FailErr != nil && !(s.Once && s.fired) {
+			s.fired = true
 			return 0, s.FailErr
 		}
 		return 0, io.EOF
